@@ -2661,6 +2661,7 @@ pub const HOSTILE_SNIPPETS: &[&str] = &[
     "null | sort", "null | unique", "null | min", "null | first", "null | last", "null | .[0]", "null | .[\"a\"]", "null | .[1:2]", "null | .[]", "null | .[]?", "null | has(0)", "null | map(.)", "null | join(\",\")", "null | explode", "null | implode", "null | test(\"a\")", "null | tojson", "null | fromjson", "null | tonumber", "null | ascii_downcase",
     "null | ltrimstr(\"a\")", "null | split(\",\")", "null | @base64", "null | @csv", "null | todate", "null | mktime", "null | gmtime", "null | strftime(\"%Y\")", "null | floor", "null | pow(.; 2)", "null | not", "null | transpose", "null | from_entries", "null | with_entries(.)", "null | walk(.)", "null | paths", "null | leaf_paths",
     "null | getpath([\"a\"])", "null | setpath([\"a\"]; 1)", "null | setpath([0]; 1)", "null | setpath([]; 1)", "null | delpaths([[\"a\"]])", "null | del(.a)", "null | to_entries", "null | tostream", "null | indices(1)", "null | index(\"a\")", "null | inside(null)", "null | contains(null)", "null | bsearch(1)", "null | group_by(.)", "null | combinations",
+    "\"aéé\" | indices(\"é\")", "\"\\u2028x\\u2028\" | indices(\"é\")", "\"é\" | indices(\"😀\")", "\"日本語日本\" | indices(\"😀\")", "\"😀a😀\" | indices(\"\")", "\"a\\u0000é\" | indices(\"\")", "\"\\u2028x\\u2028\" | indices(\"本\")", "\"aéé\" | indices(\"本\")", "\"日本語日本\" | index(\"é\")", "\"é\" | index(\"é\")", "\"a\\u0000é\" | rindex(\"é\")", "\"😀a😀\" | rindex(\"é\")", "\"aéé\" | index(\"\")", "\"\\u2028x\\u2028\" | index(\"\")", "\"é\" | rindex(\"😀\")", "\"日本語日本\" | rindex(\"😀\")", "\"😀a😀\" | ltrimstr(\"é\")", "\"a\\u0000é\" | ltrimstr(\"é\")", "\"\\u2028x\\u2028\" | rtrimstr(\"é\")", "\"aéé\" | rtrimstr(\"é\")", "\"日本語日本\" | ltrimstr(\"a\")", "\"é\" | ltrimstr(\"a\")", "\"a\\u0000é\" | startswith(\"é\")", "\"😀a😀\" | startswith(\"é\")", "\"aéé\" | endswith(\"😀\")", "\"\\u2028x\\u2028\" | endswith(\"😀\")", "\"é\" | split(\"é\")", "\"日本語日本\" | split(\"é\")", "\"😀a😀\" | split(\"\")", "\"a\\u0000é\" | split(\"\")", "\"\\u2028x\\u2028\" | split(\"😀\"; \"g\")", "\"aéé\" | split(\"😀\"; \"g\")", "\"日本語日本\" | [splits(\"é\")]", "\"é\" | [splits(\"é\")]", "\"a\\u0000é\" | test(\"é\")", "\"😀a😀\" | test(\"é\")", "\"aéé\" | [match(\"é\"; \"g\") | .offset]", "\"\\u2028x\\u2028\" | [match(\"é\"; \"g\") | .offset]", "\"é\" | [match(\"\"; \"g\") | .offset]", "\"日本語日本\" | [match(\"\"; \"g\") | .offset]", "\"😀a😀\" | [match(\".\"; \"g\") | .string]", "\"a\\u0000é\" | [match(\".\"; \"g\") | .string]", "\"\\u2028x\\u2028\" | sub(\"é\"; \"e\")", "\"aéé\" | sub(\"é\"; \"e\")", "\"日本語日本\" | gsub(\"é\"; \"ee\")", "\"é\" | gsub(\"é\"; \"ee\")", "\"a\\u0000é\" | gsub(\"\"; \"-\")", "\"😀a😀\" | gsub(\"\"; \"-\")", "\"aéé\" | gsub(\"(?<x>.)\"; \"\\\\(.x).\")", "\"\\u2028x\\u2028\" | gsub(\"(?<x>.)\"; \"\\\\(.x).\")", "\"é\" | [scan(\".\")]", "\"日本語日本\" | [scan(\".\")]", "\"😀a😀\" | capture(\"(?<c>é)\")", "\"a\\u0000é\" | capture(\"(?<c>é)\")", "\"\\u2028x\\u2028\" | .[1:]", "\"aéé\" | .[1:]", "\"日本語日本\" | .[:1]", "\"é\" | .[:1]", "\"a\\u0000é\" | .[1:2]", "\"😀a😀\" | .[1:2]", "\"aéé\" | .[-1:]", "\"\\u2028x\\u2028\" | .[-1:]", "\"é\" | .[0:-1]", "\"日本語日本\" | .[0:-1]", "\"😀a😀\" | .[1:] = \"x\"", "\"a\\u0000é\" | .[1:] = \"x\"", "\"\\u2028x\\u2028\" | explode | implode", "\"aéé\" | explode | implode", "\"日本語日本\" | explode | .[1:] | implode", "\"é\" | explode | .[1:] | implode", "\"a\\u0000é\" | ascii_downcase", "\"😀a😀\" | ascii_downcase", "\"aéé\" | ascii_upcase", "\"\\u2028x\\u2028\" | ascii_upcase", "\"é\" | @uri", "\"日本語日本\" | @uri", "\"😀a😀\" | @uri | @urid", "\"a\\u0000é\" | @uri | @urid", "\"\\u2028x\\u2028\" | @base64 | @base64d", "\"aéé\" | @base64 | @base64d", "\"日本語日本\" | @html", "\"é\" | @html", "\"a\\u0000é\" | @sh", "\"😀a😀\" | @sh", "\"aéé\" | @json", "\"\\u2028x\\u2028\" | @json", "\"é\" | tojson | fromjson", "\"日本語日本\" | tojson | fromjson", "\"😀a😀\" | utf8bytelength", "\"a\\u0000é\" | utf8bytelength", "\"\\u2028x\\u2028\" | length", "\"aéé\" | length", "\"日本語日本\" | reverse", "\"é\" | reverse", "\"a\\u0000é\" | trim", "\"😀a😀\" | trim", "\"aéé\" | ltrim", "\"\\u2028x\\u2028\" | ltrim", "\"é\" | rtrim", "\"日本語日本\" | rtrim", "\"😀a😀\" | [.[]?]", "\"a\\u0000é\" | [.[]?]", "\"\\u2028x\\u2028\" | . / \"é\"", "\"aéé\" | . / \"é\"", "\"日本語日本\" | . / \"\"", "\"é\" | . / \"\"", "\"a\\u0000é\" | . * 2", "\"😀a😀\" | . * 2", "\"aéé\" | contains(\"é\")", "\"\\u2028x\\u2028\" | contains(\"é\")", "\"é\" | inside(\"xé😀\")", "\"日本語日本\" | inside(\"xé😀\")", "\"😀a😀\" | test(\"\\\\\\\\p{L}\")", "\"a\\u0000é\" | test(\"\\\\\\\\p{L}\")", "\"\\u2028x\\u2028\" | ascii", "\"aéé\" | ascii", "\"日本語日本\" | [limit(3; indices(\"é\")[])]", "\"é\" | [limit(3; indices(\"é\")[])]", "\"a\\u0000é\" | [paths]", "\"😀a😀\" | [paths]", "\"aéé\" | tostring | indices(\"é\")", "\"\\u2028x\\u2028\" | tostring | indices(\"é\")", "\"é\" | @text | rindex(\"😀\")", "\"日本語日本\" | @text | rindex(\"😀\")",
     "null | ascii", "null | @text", "null | @json", "null | input", "null | limit(1; .)", "null | range(.)", "null | [range(null)]", "[range(\"a\")]", "[range([])]", "[range({})]", "[range(1; \"a\")]", "[range(0; 3; \"a\")]", "[range(0; 3; null)]", "[range(true)]",
 ];
 
